@@ -170,4 +170,617 @@ class C03(Plan):
         return g.cases
 
 
-ALL = {p.pid: p for p in (C01(), C02(), C03())}
+
+# ---------------------------------------------------------------- C04
+
+class C04(Plan):
+    pid = "C04"
+    corr = ("r-", "sz", "c", "e")
+    spec = ("r-", "c", "e")
+
+    def gen(self, tier, seed):
+        g = Gen(seed)
+        ns = Ns(tier, [0, 1, 2, 3], [0, 1, 2, 3, 4])
+        fams = [fam_push, fam_pop, fam_index1, fam_bulk, fam_accessors, fam_constructors,
+                lambda c, N, sz: fam_drain(c, N, sz, scripts_shapes),
+                lambda c, N, sz: ["hash", "debug", "clone_keep", "eq_slice slice " + c.es(sz, default_vals(sz)),
+                                  "iter_mut " + ",".join("n" * (sz + 1)), "make_contiguous -",
+                                  "as_mut_slices -", "into_iter n,b"]]
+        for fam in fams:
+            g.one_step(ns, JUNKS, fam)
+        # histories from a genuinely fresh buffer and from rotated copies
+        random_histories(g, tier, 40 if tier == "quick" else 600, [3, 4, 5, 6, 8], 30)
+        n0 = len(g.cases)
+        for c in list(g.cases[n0 - (40 if tier == "quick" else 600):]):
+            for j in JUNKS:
+                if j != c.junk:
+                    d = g.new(c.N, c.start, c.vals, junk=j, tag="history")
+                    d.ops = list(c.ops)
+        return g.cases
+
+    def oracle_groups(self, cases, parsed):
+        """same layout, same calls, different junk => identical implementation traces;
+           same contents, same calls, different rotation => identical observable results"""
+        out = []
+        by_junk, by_rot = {}, {}
+        for c in cases:
+            p = parsed.get(c.cid)
+            if p is None or p["crash"]:
+                continue
+            tr = tuple((r.get("i", {}).get("r"), r.get("i", {}).get("st"), r.get("i", {}).get("c"),
+                        r.get("i", {}).get("e")) for _, r in sorted(p["ops"].items()))
+            tr2 = tuple((E_erase(r.get("i", {}).get("r")), r.get("i", {}).get("c"),
+                         r.get("i", {}).get("e")) for _, r in sorted(p["ops"].items()))
+            k1 = (c.N, c.start, tuple(c.vals), tuple(c.ops))
+            k2 = (c.N, tuple(c.vals), tuple(c.ops), c.junk)
+            if k1 in by_junk and by_junk[k1][1] != tr:
+                out.append((c, -1, "trace depends on the bytes in unoccupied slots (junk %d vs %d)" % (by_junk[k1][0].junk, c.junk)))
+            by_junk.setdefault(k1, (c, tr))
+            if k2 in by_rot and by_rot[k2][1] != tr2:
+                out.append((c, -1, "observable results depend on the internal layout (start %d vs %d)" % (by_rot[k2][0].start, c.start)))
+            by_rot.setdefault(k2, (c, tr2))
+        return out
+
+
+def E_erase(r):
+    import engine
+    return engine.erase_phys(r) if r else r
+
+
+# ---------------------------------------------------------------- C05 / C06
+
+def fam_destroying(c, N, sz):
+    out = ["clear", "new", "fill " + c.e(), "fill_with", "clone_keep", "into_iter n", "into_iter -",
+           "drain u u - drop", "drain u u n drop", "drain i1 u b drop", "drain u e1 - drop"]
+    for k in sorted({0, 1, max(sz - 1, 0)}):
+        out += ["truncate_back %d" % k, "truncate_front %d" % k]
+    for m in sorted({1, N, N + 1, 2 * N + 1}):
+        out += ["extend_from_slice " + c.es(m), "extend " + c.es(m), "from_array " + c.es(m),
+                "from_iter " + c.es(m)]
+    for (o_st, o_sz) in layouts(N)[:: max(1, len(layouts(N)) // 3)]:
+        out.append("clone_from " + other_buf(c, N, o_st, default_vals(o_sz, 7)))
+    return out
+
+
+class C05(Plan):
+    pid = "C05"
+    corr = ("r-", "st", "sz", "c", "e", "f")
+    spec = ("r-", "c", "e")
+    no_leak = False
+
+    def gen(self, tier, seed):
+        g = Gen(seed)
+        ns = Ns(tier, [0, 1, 2, 3], [0, 1, 2, 3, 4])
+        for k in range(0, (2 * max(ns) + 3)):
+            g.one_step([n for n in ns if k <= 2 * n + 2], [4, 3] if tier != "quick" else [4],
+                       fam_destroying, fault="drop:%d" % k,
+                       suffix=("push_back 9001:5", "pop_front", "as_slices", "new"))
+        return g.cases
+
+    def oracle_op(self, c, k, optext, rec, p):
+        r = rec["i"].get("r", "")
+        if r.startswith("panic:") and r != "panic:user" and k == 0 and rec.get("s", {}).get("r") != "panic":
+            return "a destructor panic turned into %s" % r
+        return None
+
+
+def fam_usercode(kind):
+    def f(c, N, sz):
+        if kind == "clone":
+            out = ["fill " + c.e(), "fill_spare " + c.e(), "clone_keep", "clone_drop", "to_vec"]
+            for m in range(0, 2 * N + 2):
+                out.append("extend_from_slice " + c.es(m))
+            for (o_st, o_sz) in layouts(N):
+                out.append("clone_from " + other_buf(c, N, o_st, default_vals(o_sz, 7)))
+            return out
+        if kind == "call":
+            return ["fill_with", "fill_spare_with"]
+        if kind == "next":
+            out = []
+            for m in range(0, 2 * N + 2):
+                out += ["extend " + c.es(m), "from_iter " + c.es(m)]
+            return out
+        if kind == "eq":
+            vals = default_vals(sz)
+            out = ["eq_slice slice " + c.es(sz, vals), "eq_slice slice_ref " + c.es(sz, vals),
+                   "eq_slice array " + c.es(sz, vals)]
+            for M in (N, N + 1):
+                for (o_st, o_sz) in layouts(M):
+                    if o_sz == sz:
+                        out.append("eq " + other_buf(c, M, o_st, vals))
+            return out
+        if kind == "cmp":
+            vals = default_vals(sz)
+            out = []
+            for (o_st, o_sz) in layouts(N):
+                out.append("cmp " + other_buf(c, N, o_st, default_vals(o_sz)))
+                out.append("partial_cmp " + other_buf(c, N, o_st, default_vals(o_sz)))
+            return out
+        if kind == "hash":
+            return ["hash"]
+        return ["debug"]
+    return f
+
+
+class C06(Plan):
+    pid = "C06"
+    corr = ("r-", "st", "sz", "c", "e", "f")
+    spec = ("r-", "c", "e")
+    no_leak_faults = True
+
+    def gen(self, tier, seed):
+        g = Gen(seed)
+        ns = Ns(tier, [0, 1, 2, 3], [0, 1, 2, 3, 4])
+        for kind in ("clone", "call", "next", "eq", "cmp", "hash", "fmt"):
+            for k in range(0, 2 * max(ns) + 3):
+                g.one_step([n for n in ns if k <= 2 * n + 2], [4], fam_usercode(kind),
+                           fault="%s:%d" % (kind, k),
+                           suffix=("push_back 9001:5", "pop_front", "as_slices", "new"))
+        return g.cases
+
+    def oracle_op(self, c, k, optext, rec, p):
+        r = rec["i"].get("r", "")
+        if r.startswith("panic:") and r != "panic:user" and k == 0 and rec.get("s", {}).get("r") != "panic":
+            return "a panic in user code turned into %s" % r
+        return None
+
+
+# ---------------------------------------------------------------- C07 .. C14
+
+class C07(Plan):
+    pid = "C07"
+    corr = ("r", "st", "sz", "c")
+    spec = ("r-", "c")
+
+    def gen(self, tier, seed):
+        g = Gen(seed)
+        ns = Ns(tier, [0, 1, 2, 3, 4, 5], [0, 1, 2, 3, 4, 5, 6, 7])
+        g.one_step(ns, [3], fam_accessors)
+        g.one_step(ns, [3], fam_mut_views)
+        g.one_step(ns, [3], lambda c, N, sz: [["make_contiguous -", "as_slices"],
+                                              ["make_contiguous " + c.es(sz), "as_slices", "iter " + ",".join("n" * (sz + 1))],
+                                              ["as_mut_slices " + c.es(sz), "as_slices", "to_vec"]])
+        g.one_step(Ns(tier, [0, 1, 2, 3, 4], [0, 1, 2, 3, 4, 5]), [3],
+                   lambda c, N, sz: ["range %s %s %s" % (sb, eb, ",".join("n" * (sz + 1))) for (sb, eb, a, b) in all_ranges(sz)])
+        return g.cases
+
+    def oracle_op(self, c, k, optext, rec, p):
+        if optext == "as_slices" and k > 0 and c.ops[k - 1].startswith("make_contiguous"):
+            r = rec["i"].get("r", "")
+            if not r.endswith("|-]"):
+                return "as_slices reports two slices after make_contiguous: %s" % r
+        return None
+
+
+class C08(Plan):
+    pid = "C08"
+    corr = ("r", "sz", "c")
+    spec = ("r-", "c")
+
+    def gen(self, tier, seed):
+        g = Gen(seed)
+        g.one_step(Ns(tier, [0, 1, 2, 3], [0, 1, 2, 3, 4]), [3],
+                   lambda c, N, sz: fam_iters(c, N, sz, sc_for(tier, 3 if tier == "quick" else 4)))
+        g.one_step(Ns(tier, [0, 1, 2, 3, 4], [0, 1, 2, 3, 4, 5]), [3], fam_iter_forms)
+        g.one_step(Ns(tier, [0, 1, 2, 3, 4], [0, 1, 2, 3, 4, 5]), [3],
+                   lambda c, N, sz: ["iter " + s for s in scripts_exhaustive(sz, 2, "nbl")[:400]] +
+                                    ["iter_mut " + s for s in scripts_exhaustive(sz, 2)] +
+                                    ["into_iter " + s for s in scripts_exhaustive(sz, 2)] +
+                                    ["iter n,c,n,b", "iter c", "iter b,c,l", "iter " + ",".join("n" * sz + "c")])
+        return g.cases
+
+
+class C09(Plan):
+    pid = "C09"
+    corr = ("r-", "st", "sz", "c", "e")
+    spec = ("r-", "c", "e")
+
+    def gen(self, tier, seed):
+        g = Gen(seed)
+        g.one_step(Ns(tier, [0, 1, 2, 3, 4], [0, 1, 2, 3, 4, 5]), [3, 4],
+                   lambda c, N, sz: fam_drain(c, N, sz, sc_for(tier, 3 if tier == "quick" else 4),
+                                              ranges=all_ranges(sz, with_invalid=False)))
+        g.one_step(Ns(tier, [0, 1, 2, 3, 4], [0, 1, 2, 3, 4, 5]), [3], fam_drain_forms)
+        g.one_step(Ns(tier, [5, 6], [5, 6, 7, 8]), [3],
+                   lambda c, N, sz: fam_drain(c, N, sz, lambda L: ["-", ",".join("n" * L) or "-", ",".join("b" * L) or "-",
+                                                                    ",".join(("nb" * L)[:L]) or "-"],
+                                              ranges=all_ranges(sz, with_invalid=False)))
+        return g.cases
+
+
+class C10(Plan):
+    pid = "C10"
+    corr = ("r-", "st", "sz", "c", "e")
+    spec = ("r-", "c", "e")
+    no_leak = False
+
+    def gen(self, tier, seed):
+        g = Gen(seed)
+        followups = ["push_back 9001:5", "push_front 9002:5", "pop_back", "extend_from_slice 9003:1,9004:2,9005:3",
+                     "fill_with", "clear", "as_slices", "drain u u n drop", "truncate_front 0"]
+
+        def mk(c, N, sz):
+            out = []
+            for (sb, eb, a, b) in all_ranges(sz, with_invalid=False):
+                L = b - a
+                for s in (scripts_exhaustive(L, 1) if L <= 2 else scripts_shapes(L, 1)):
+                    for f in followups[:: (1 if tier != "quick" else 3)]:
+                        out.append(["drain %s %s %s forget" % (sb, eb, s), f, "push_back 9100:1", "new"])
+            return out
+        g.one_step(Ns(tier, [0, 1, 2, 3], [0, 1, 2, 3, 4]), [4, 3], mk, suffix=())
+        random_histories(g, tier, 30 if tier == "quick" else 500, [3, 4, 5, 8], 30)
+        # sprinkle forgotten drains into the histories
+        for c in g.cases:
+            if c.tag == "history":
+                for i in range(0, len(c.ops), 7):
+                    if c.ops[i].startswith("drain") and c.ops[i].endswith(" drop"):
+                        c.ops[i] = c.ops[i][:-5] + " forget"
+        return g.cases
+
+    def oracle_op(self, c, k, optext, rec, p):
+        if optext.startswith("drain") and optext.endswith("forget") and not rec["i"].get("r", "").startswith("panic"):
+            prev = p["ops"].get(k - 1, {}).get("i") if k > 0 else p["init"].get("impl")
+            before = set((prev or {}).get("c", "-").split(",")) - {"-"}
+            yielded = set(re.findall(r"@(\d+:\d+)", rec["i"].get("r", "")))
+            after = [x for x in rec["i"].get("c", "-").split(",") if x != "-"]
+            if len(set(after)) != len(after):
+                return "duplicated element after a forgotten drain"
+            if not set(after) <= before - yielded:
+                return "after a forgotten drain the buffer holds %s, not drawn from %s minus yielded %s" % (after, sorted(before), sorted(yielded))
+        return None
+
+
+import re  # noqa: E402
+
+
+def fam_everything(c, N, sz):
+    out = []
+    for fam in (fam_push, fam_pop, fam_index1, fam_swap, fam_bulk, fam_accessors, fam_mut_views, fam_constructors):
+        out += fam(c, N, sz)
+    out += fam_drain_forms(c, N, sz) + fam_iter_forms(c, N, sz)
+    out += ["hash", "debug", "to_vec", "clone_keep"]
+    return out
+
+
+class C11(Plan):
+    pid = "C11"
+    corr = ("r-", "sz", "c")
+    spec = ("r-", "c")
+    cfgs_quick = ("dev", "rel")
+
+    def gen(self, tier, seed):
+        g = Gen(seed)
+        g.one_step(Ns(tier, [0, 1, 2, 3], [0, 1, 2, 3, 4]), [3], fam_everything)
+        g.one_step(Ns(tier, [0, 1, 2, 3], [0, 1, 2, 3, 4]), [3],
+                   lambda c, N, sz: ["write std " + c.es(m) for m in (0, 1, N, 2 * N + 1)] +
+                                    ["read std " + c.es(m) for m in (0, 1, N + 2)] +
+                                    ["fill_buf std", "flush std"] + ["consume std %d" % k for k in (0, 1, N, N + 2, MAX)],
+                   elem="u8")
+        return g.cases
+
+
+class C12(Plan):
+    pid = "C12"
+    corr = ("r-", "st", "sz", "c", "e")
+    spec = ("r-", "c", "e")
+
+    def gen(self, tier, seed):
+        g = Gen(seed)
+        ns = Ns(tier, [0, 1, 2, 3, 4], [0, 1, 2, 3, 4, 5])
+        g.one_step(ns, [3, 4], fam_constructors)
+        g.one_step(ns, [4], lambda c, N, sz: ["clone_from " + other_buf(c, N, o_st, default_vals(o_sz, 7))
+                                              for (o_st, o_sz) in layouts(N)])
+        g.one_step(ns, [4], lambda c, N, sz: [["into_iter " + ",".join("n" * (sz + 1))], ["clone_keep", "to_vec"],
+                                              ["clone_drop", "as_slices"]])
+        return g.cases
+
+
+def states_over_alphabet(N, alphabet=(1, 2)):
+    out = []
+    for (st, sz) in layouts(N):
+        for vals in itertools.product(alphabet, repeat=sz):
+            out.append((st, list(vals)))
+    return out
+
+
+class C13(Plan):
+    pid = "C13"
+    corr = ("r", "e")
+    spec = ("r-", "e")
+
+    def gen(self, tier, seed):
+        g = Gen(seed)
+        top = 3 if tier == "quick" else 4
+        for N in range(0, top + 1):
+            sa = states_over_alphabet(N)
+            for M in range(0, top + 1):
+                sb = states_over_alphabet(M)
+                if tier == "quick" and N + M > 5:
+                    sb = sb[::3]
+                for (st, vals) in sa:
+                    c = g.new(N, st, vals, junk=3)
+                    for (ost, ovals) in sb:
+                        ob = other_buf(c, M, ost, ovals)
+                        c.ops.append("eq " + ob)
+                        c.ops.append("partial_cmp " + ob)
+                        if M == N:
+                            c.ops.append("cmp " + ob)
+            for (st, vals) in sa:
+                c = g.new(N, st, vals, junk=3)
+                c.ops += ["hash", "debug"]
+                for k in range(0, N + 2):
+                    for xs in itertools.product((1, 2), repeat=k):
+                        for form in ("slice", "array", "slice_ref", "slice_mut", "array_ref", "array_mut"):
+                            if form == "slice" or list(xs) == vals or k == len(vals):
+                                c.ops.append("eq_slice %s %s" % (form, c.es(k, list(xs))))
+        return g.cases
+
+    def oracle_groups(self, cases, parsed):
+        """equal contents (same capacity) => equal hash stream and Debug entries, whatever the layout"""
+        out, seen = [], {}
+        for c in cases:
+            p = parsed.get(c.cid)
+            if p is None or "hash" not in c.ops:
+                continue
+            k = c.ops.index("hash")
+            i = p["ops"].get(k, {}).get("i", {})
+            h = tuple(x.split(":")[-1] if x.startswith("H") and not x.startswith("HL") else x for x in (i.get("e") or "-").split(","))
+            key = (c.N, tuple(c.vals))
+            if key in seen and seen[key][1] != h:
+                out.append((c, k, "equal buffers hash differently: %s vs %s" % (seen[key][1], h)))
+            seen.setdefault(key, (c, h))
+        return out
+
+
+def fam_io(fams):
+    def f(c, N, sz):
+        out = []
+        for fam in fams:
+            out += ["write %s %s" % (fam, c.es(m)) for m in range(0, 2 * N + 2)]
+            out += ["read %s %s" % (fam, c.es(m)) for m in range(0, N + 3)]
+            out += ["fill_buf " + fam, "flush " + fam]
+            out += ["consume %s %d" % (fam, k) for k in list(range(0, N + 3)) + [MAX]]
+        return out
+    return f
+
+
+def io_histories(g, tier, count, fams, Nset, length):
+    r = g.rng
+    for _ in range(count):
+        N = r.choice(Nset)
+        st = r.below(N) if N else 0
+        sz = r.below(N + 1)
+        c = g.new(N, st, [r.below(256) for _ in range(sz)], elem="u8", junk=r.choice(JUNKS), tag="history")
+        for _ in range(length):
+            fam = r.choice(fams)
+            k = r.below(10)
+            if k < 4:
+                c.ops.append("write %s %s" % (fam, c.es(r.below(2 * min(N, 8) + 2))))
+            elif k < 7:
+                c.ops.append("read %s %s" % (fam, c.es(r.below(min(N, 8) + 3))))
+            elif k < 8:
+                c.ops.append("fill_buf " + fam)
+            elif k < 9:
+                c.ops.append("consume %s %d" % (fam, r.choice([0, 1, 2, r.below(N + 2), MAX])))
+            else:
+                c.ops.append("flush " + fam)
+
+
+class C14(Plan):
+    pid = "C14"
+    corr = ("r-", "sz", "c")
+    spec = ("r-", "c")
+    elem = "u8"
+
+    def gen(self, tier, seed):
+        g = Gen(seed)
+        g.one_step(Ns(tier, [0, 1, 2, 3, 4], [0, 1, 2, 3, 4, 5, 6]), [1, 2], fam_io(["std"]), elem="u8", suffix=())
+        io_histories(g, tier, 100 if tier == "quick" else 3000, ["std"], [0, 1, 2, 3, 4, 5, 8, 16, 64], 30)
+        return g.cases
+
+    def oracle_op(self, c, k, optext, rec, p):
+        r = rec["i"].get("r", "")
+        if r in ("ioerr", "pending") or r.startswith("panic"):
+            return "I/O call failed: %s" % r
+        return None
+
+
+class C16(Plan):
+    pid = "C16"
+    corr = ("r-", "sz", "c")
+    spec = ("r-", "c")
+    elem = "u8"
+    cfgs_quick = ("eio", "eio1", "eio2")
+    cfgs_thorough = ("eio", "eio1", "eio2")
+
+    def gen_cfg(self, tier, seed, cfg):
+        fams = {"eio": ["std", "eio", "aio"], "eio1": ["std", "eio"], "eio2": ["std", "aio"]}[cfg]
+        g = Gen(seed)
+        g.one_step(Ns(tier, [0, 1, 2, 3], [0, 1, 2, 3, 4, 5]), [2], fam_io(fams), elem="u8", suffix=())
+        io_histories(g, tier, 60 if tier == "quick" else 2000, fams, [0, 1, 2, 3, 4, 5, 8, 16], 30)
+        return g.cases
+
+    def gen(self, tier, seed):
+        return self.gen_cfg(tier, seed, "eio")
+
+    def oracle_op(self, c, k, optext, rec, p):
+        r = rec["i"].get("r", "")
+        if r in ("ioerr", "pending") or r.startswith("panic"):
+            return "I/O call failed or did not complete immediately: %s" % r
+        return None
+
+    def oracle_groups(self, cases, parsed):
+        """the same call through each trait family from the same state gives the same outcome"""
+        out, seen = [], {}
+        for c in cases:
+            if c.tag == "history" or len(c.ops) != 1:
+                continue
+            p = parsed.get(c.cid)
+            if p is None:
+                continue
+            t = c.ops[0].split(" ")
+            fam = t[1]
+            call = " ".join([t[0]] + [re.sub(r"\d+:", "", x) for x in t[2:]])
+            key = (c.N, c.start, tuple(c.vals), c.junk, call)
+            i = p["ops"].get(0, {}).get("i", {})
+            obs = (i.get("r"), i.get("sz"), i.get("c"))
+            if key in seen and seen[key][1] != obs:
+                out.append((c, 0, "%s via %s gives %s, via %s gives %s" % (call, fam, obs, seen[key][0], seen[key][1])))
+            seen.setdefault(key, (fam, obs))
+        return out
+
+
+class C18(Plan):
+    pid = "C18"
+    corr = ("r", "st", "sz", "c", "e", "f")
+    spec = ()
+    no_leak = False
+    cfgs_quick = ("dev", "unstable")
+    cfgs_thorough = ("dev", "unstable", "rel", "unstable-rel")
+
+    def gen(self, tier, seed):
+        g = Gen(seed)
+        ns = Ns(tier, [0, 1, 2, 3], [0, 1, 2, 3, 4])
+        for fam in (fam_push, fam_pop, fam_index1, fam_swap, fam_bulk, fam_accessors, fam_mut_views, fam_constructors,
+                    fam_drain_forms, fam_iter_forms):
+            g.one_step(ns, [3], fam)
+        g.one_step(ns, [3], lambda c, N, sz: fam_drain(c, N, sz, sc_for(tier, 2)))
+        g.one_step(ns, [3], lambda c, N, sz: fam_iters(c, N, sz, sc_for(tier, 2)))
+        for k in range(0, 2 * max(ns) + 3):
+            g.one_step([n for n in ns if k <= 2 * n + 2], [4], fam_destroying, fault="drop:%d" % k,
+                       suffix=("push_back 9001:5", "new"))
+            for kind in ("clone", "next", "call", "eq", "cmp"):
+                g.one_step([n for n in ns if k <= 2 * n + 2], [4], fam_usercode(kind), fault="%s:%d" % (kind, k),
+                           suffix=("push_back 9001:5", "new"))
+        random_histories(g, tier, 40 if tier == "quick" else 1000, [3, 4, 5, 8, 16], 40)
+        return g.cases
+
+    def cross_cfg(self, results):
+        """identical traces in the stable and the unstable build"""
+        out = []
+        good = [r for r in results if "parsed" in r]
+        base = {}
+        for r in good:
+            dbg = r["dbg"]
+            for c in r["cases"]:
+                p = r["parsed"].get(c.cid)
+                if p is None:
+                    continue
+                tr = (tuple((x.get("i", {}).get("r"), x.get("i", {}).get("st"), x.get("i", {}).get("c"),
+                             x.get("i", {}).get("e"), x.get("i", {}).get("f")) for _, x in sorted(p["ops"].items())),
+                      str(p["fin"]), str(p["crash"]))
+                key = (dbg, c.cid)
+                if key in base and base[key][1] != tr:
+                    out.append((r, (c, -1, "the %s build and the %s build behave differently" % (base[key][0], r["cfg"]))))
+                base.setdefault(key, (r["cfg"], tr))
+        return out
+
+
+HUGE = [65537, 2**32 - 1, 2**32, 2**32 + 1, 2**63 - 1, 2**63, 2**63 + 1, 2**64 - 2, 2**64 - 1]
+
+
+class C19(Plan):
+    pid = "C19"
+    corr = ("r-", "st", "sz", "c", "e")
+    spec = ("r-", "c", "e")
+    elem = "Z"
+    cfgs_quick = ("dev", "rel")
+
+    def gen(self, tier, seed):
+        g = Gen(seed)
+
+        def fam(c, N, sz):
+            I = sorted({0, 1, 2, sz - 1 if sz else 0, sz, sz + 1, N - 1, N, MAX - 1, MAX} & set(range(0, 2**64)))
+            out = fam_push(c, N, sz) + fam_pop(c, N, sz)
+            for i in I:
+                out += ["remove %d" % i, "swap_remove_back %d" % i, "swap_remove_front %d" % i,
+                        "truncate_back %d" % i, "truncate_front %d" % i, "get %d" % i, "nth_back %d" % i,
+                        "index %d" % i, "get_mut %d %s" % (i, c.e())]
+            out += ["swap %d %d" % (i, j) for i in (0, sz - 1 if sz else 0, sz, MAX) for j in (0, 1, sz, MAX)]
+            out += ["clear", "front", "back", "as_slices", "len", "is_full", "is_empty", "to_vec", "clone_keep",
+                    "extend " + c.es(3), "extend_from_slice " + c.es(3), "iter n,b,l,n,n,n", "iter_mut n,b,n,n",
+                    "into_iter n,b,l", "new", "front_mut " + c.es(1), "back_mut " + c.es(1)]
+            out += fam_drain_forms(c, N, sz)
+            out += ["drain i%d e%d n,b,l drop" % (a, b) for a in range(sz + 1) for b in range(a, sz + 1)]
+            out += ["range i%d e%d n,b,l" % (a, b) for a in range(sz + 1) for b in range(a, sz + 1)]
+            return out
+        for N in HUGE:
+            starts = [0, 1, 2, 3, N - 3, N - 2, N - 1]
+            for st in starts:
+                for sz in range(0, 5 if tier != "quick" else 4):
+                    probe = Case(0, N, st, [0] * sz, elem="Z")
+                    n = len(fam(probe, N, sz))
+                    for k in range(n):
+                        c = g.new(N, st, [0] * sz, elem="Z", junk=0)
+                        c.ops = [fam(c, N, sz)[k], "new"]
+        # reach the edge by push_front / pop from an empty buffer
+        r = g.rng
+        for N in HUGE:
+            for _ in range(6 if tier == "quick" else 60):
+                c = g.new(N, 0, [], elem="Z", junk=0, tag="history")
+                for _ in range(30):
+                    c.ops.append(r.choice(["push_front " + c.e(), "push_front " + c.e(), "pop_back", "pop_front", "push_back " + c.e(),
+                                           "try_push_front " + c.e(), "remove 0", "swap_remove_front 1", "truncate_front 1",
+                                           "drain i0 e1 n drop", "as_slices", "get 0", "nth_back 0", "swap 0 1"]))
+                c.ops.append("new")
+        return g.cases
+
+
+class C20(Plan):
+    pid = "C20"
+    corr = ("r", "st", "sz", "c")
+    spec = ("r-", "c")
+
+    def gen(self, tier, seed):
+        g = Gen(seed)
+        ns = Ns(tier, [1, 2, 3, 4, 5], [1, 2, 3, 4, 5, 6, 7, 8])
+
+        def fam(c, N, sz):
+            out = fam_push(c, N, sz) + fam_pop(c, N, sz) + fam_swap(c, N, sz)
+            for i in idxs(N, sz):
+                out += ["remove %d" % i, "swap_remove_back %d" % i, "swap_remove_front %d" % i,
+                        "truncate_back %d" % i, "truncate_front %d" % i, "get %d" % i, "get_mut %d %s" % (i, c.e())]
+            out += ["clear", "as_slices", "as_mut_slices -", "front", "back", "make_contiguous -"]
+            out += ["drain %s %s - drop" % (sb, eb) for (sb, eb, a, b) in all_ranges(sz, with_invalid=False)]
+            out += ["drain %s %s n,b drop" % (sb, eb) for (sb, eb, a, b) in all_ranges(sz, with_invalid=False)]
+            return out
+        g.one_step(ns, [3], fam, suffix=())
+        return g.cases
+
+    def oracle_op(self, c, k, optext, rec, p):
+        i = rec["i"]
+        if i.get("r", "").startswith("panic"):
+            return None
+        prev = p["ops"].get(k - 1, {}).get("i") if k > 0 else p["init"].get("impl")
+        if not prev:
+            return None
+
+        def where(d):
+            ids = [x.split(":")[0] for x in d.get("c", "-").split(",") if x != "-"]
+            st = int(d.get("st", 0))
+            return {e: (st + j) % c.N for j, e in enumerate(ids)}
+        a, b = where(prev), where(i)
+        moved = sum(1 for e in a if e in b and a[e] != b[e])
+        n = len(a)
+        t = optext.split(" ")
+        name = t[0]
+        if name == "remove":
+            bound = max(0, n - int(t[1]))
+        elif name == "drain":
+            # relocation bound len - j for drain(i..j)
+            sb, eb = t[1], t[2]
+            j = n if eb == "u" else (int(eb[1:]) + (1 if eb[0] == "i" else 0))
+            bound = max(0, n - j)
+        elif name == "make_contiguous":
+            st = int(prev.get("st", 0))
+            contiguous = n == 0 or st + n <= c.N
+            bound = 0 if contiguous else c.N
+        else:
+            bound = 2
+        if moved > bound:
+            return "%s relocated %d surviving elements (allowed %d)" % (optext, moved, bound)
+        return None
+
+
+ALL = {p.pid: p for p in (C01(), C02(), C03(), C04(), C05(), C06(), C07(), C08(), C09(), C10(),
+                          C11(), C12(), C13(), C14(), C16(), C18(), C19(), C20())}
